@@ -6,12 +6,19 @@
 // permission bits of an existing destination, leave distinct inputs unchanged and leave no staging
 // entries; the filesystem trace must never show the input being opened for writing / truncated
 // through any alias (that is what corrupts data still being read).
+//
+// The thorough tier (relations.go, variants.go) adds path relations (.. segments, symlink chains, relative
+// symlink targets, hard link to an unrelated file, odd and long names, read-only / umask-sensitive /
+// special-bit modes, pre-populated output directories of the multi-output operations) and input variants
+// (encrypted with the password in the configuration, classic cross-reference table with incremental updates,
+// cross-reference stream + object streams, inherited page attributes, a larger corpus document).
 package main
 
 import (
 	"fmt"
 	"os"
 	"path/filepath"
+	"sort"
 	"strings"
 	"syscall"
 
@@ -22,30 +29,6 @@ import (
 	"verif/harness/internal/pdfcmp"
 	"verif/harness/internal/vk"
 )
-
-type relation struct {
-	name  string
-	alias bool // output names the same file as the input
-	mode  os.FileMode
-}
-
-var relations = []relation{
-	{name: "new"},
-	{name: "existing-0600", mode: 0o600},
-	{name: "existing-0640", mode: 0o640},
-	// permission bits a creation mode would lose to the usual umask 022 (only fchmod keeps them)
-	{name: "existing-0664", mode: 0o664},
-	{name: "existing-0666", mode: 0o666},
-	{name: "existing-0755", mode: 0o755},
-	{name: "inplace-empty-out", alias: true},
-	{name: "inplace-mode-0600", alias: true, mode: 0o600},
-	{name: "same-string", alias: true},
-	{name: "dot-slash", alias: true},
-	{name: "abs-vs-rel", alias: true},
-	{name: "symlink-to-input", alias: true},
-	{name: "hardlink-to-input", alias: true},
-	{name: "symlinked-dir", alias: true},
-}
 
 // existingMeansSomethingElse: operations whose contract for an EXISTING output is not "replace it":
 // ImportImagesFile appends pages to an existing PDF (the /append variant drives that on purpose);
@@ -59,20 +42,33 @@ func existingMeansSomethingElse(name string) bool {
 }
 
 func applies(op opcat.Op, r relation) bool {
-	if strings.HasPrefix(r.name, "existing") && existingMeansSomethingElse(op.Name) {
+	if (strings.HasPrefix(r.name, "existing") || r.existing) && existingMeansSomethingElse(op.Name) {
 		return false
 	}
 	if op.Kind == opcat.DirOut {
-		return r.name == "new"
+		return r.name == "new" || r.dir
+	}
+	if r.dir {
+		return false
 	}
 	if op.AppendsToOut {
-		return strings.HasPrefix(r.name, "existing")
+		// the merged document gets a bookmark titled after the destination file: the output depends on the destination's
+		// NAME, so the odd / long names have no reference run to be compared with
+		return strings.HasPrefix(r.name, "existing") && !strings.HasPrefix(r.name, "existing-name-")
+	}
+	if r.extraAlias != 0 {
+		// the output names one of the PDF inputs of an operation without a primary input (merge)
+		px := pdfExtras(op)
+		return op.Input == "" && strings.HasSuffix(op.OutName, ".pdf") && len(px) >= r.extraAlias
 	}
 	if r.alias {
 		if op.Input == "" {
 			return false
 		}
-		if r.name == "inplace-empty-out" || r.name == "inplace-mode-0600" {
+		if r.renamesInput && contains(op.Extra, op.Input) {
+			return false
+		}
+		if r.inplace {
 			return op.InPlace
 		}
 		// explicit output naming the input: only meaningful when the output is a PDF like the input
@@ -81,21 +77,51 @@ func applies(op opcat.Op, r relation) bool {
 	return true
 }
 
-type item struct {
-	op opcat.Op
-	r  relation
+// group is one operation with one input variant and the relations it is run under (one reference run serves all).
+type group struct {
+	op   opcat.Op
+	v    *variant // nil: the catalogue's fixtures
+	rels []relation
 }
 
-func items() []item {
-	var its []item
+func groups(thorough bool, vars []variant) []group {
+	var gs []group
 	for _, op := range opcat.All() {
+		g := group{op: op}
 		for _, r := range relations {
-			if applies(op, r) {
-				its = append(its, item{op, r})
+			if (thorough || !r.thorough) && applies(op, r) {
+				g.rels = append(g.rels, r)
+			}
+		}
+		if len(g.rels) > 0 {
+			gs = append(gs, g)
+		}
+		if !thorough {
+			continue
+		}
+		for i := range vars {
+			if !vars[i].fits(op) {
+				continue
+			}
+			g := group{op: op, v: &vars[i]}
+			for _, r := range relations {
+				if r.variants && applies(op, r) {
+					g.rels = append(g.rels, r)
+				}
+			}
+			if len(g.rels) > 0 {
+				gs = append(gs, g)
 			}
 		}
 	}
-	return its
+	return gs
+}
+
+func countItems(gs []group) (n int) {
+	for _, g := range gs {
+		n += len(g.rels)
+	}
+	return
 }
 
 func main() {
@@ -103,26 +129,45 @@ func main() {
 		api.DisableConfigDir()
 		syscall.Umask(0o022) // the usual umask, set explicitly: mode preservation must not depend on the caller's
 		if !t.IsShard() {
-			t.Rule("case = (operation, input/output path relation); each case runs the real API call twice (reference run onto a fresh path, run under the relation) with the filesystem interposer tracing; non-trivial = every case whose run succeeded (outputs compared, modes compared, trace checked); distinct by (op, relation)")
+			t.Rule("case = (operation, input/output path relation[, input variant]); each case runs the real API call under the relation with the filesystem interposer tracing and is compared with a reference run of the same call onto a fresh path; non-trivial = every case whose run succeeded (outputs compared, modes compared, trace checked); distinct by (op, relation, input variant)")
 			t.Assume("output equivalence between two runs: both validate with pdfcpu, same page count, byte-equal after masking /ID and dates or sizes within 256 bytes when object streams/encryption make bytes run-dependent (an independent structural comparison is the subject of C18/C19)")
 			t.Assume("hard link / symlink to the input: the named output must hold the complete result and the data read must never be corrupted; the input's other name may hold old or new bytes (the property text does not prescribe it)")
 			fx := filepath.Join(t.Scratch(), "fx")
-			os.MkdirAll(fx, 0o755)
-			if err := opcat.Prepare(vk.RepoDir(), fx); err != nil {
-				t.Broken("fixtures: %v", err)
+			var vars []variant
+			if t.Quick() {
+				os.MkdirAll(fx, 0o755)
+				if err := opcat.Prepare(vk.RepoDir(), fx); err != nil {
+					t.Broken("fixtures: %v", err)
+				}
+			} else {
+				vars = buildVariants(t, fx) // prepares the fixtures too
+				t.Assume("output named through symbolic links: the named path must read back as the complete result with the permission bits it showed before; whether the link or its target is replaced is not prescribed. Hard link to an unrelated file: the other name keeps its bytes (only the result is published). setuid/setgid/sticky bits of a replaced destination are counted, not judged (the property text speaks of permission bits)")
 			}
-			t.Extra("op_relations", len(items()))
+			gs := groups(!t.Quick(), vars)
+			t.Extra("op_relations", countItems(gs))
+			t.Extra("op_groups", len(gs))
 			t.RunShards(16, "VERIF_FX="+fx)
 			if t.Counter("successful_runs_checked") == 0 {
 				t.Broken("nothing observed")
 			}
+			if !t.Quick() {
+				for _, r := range relations {
+					if r.thorough && t.Counter("relation_succeeded/"+r.name)+t.Counter("relation_refused/"+r.name) == 0 {
+						t.Broken("relation %s was never exercised", r.name)
+					}
+				}
+			}
 			return
 		}
 		fx := os.Getenv("VERIF_FX")
+		var vars []variant
+		if !t.Quick() {
+			vars = loadVariants(t, fx)
+		}
 		si, sn := t.Shard()
-		for idx, it := range items() {
-			if idx%sn == si {
-				runItem(t, fx, it)
+		for gi, g := range groups(!t.Quick(), vars) {
+			if gi%sn == si {
+				runGroup(t, fx, g)
 			}
 		}
 	})
@@ -137,15 +182,19 @@ func cp(src, dst string, mode os.FileMode) {
 	os.Chmod(dst, mode)
 }
 
-func setup(fx, root string, op opcat.Op) *opcat.Call {
+func setup(fx, root string, op opcat.Op, v *variant) *opcat.Call {
 	os.RemoveAll(root)
 	os.MkdirAll(root, 0o755)
 	c := &opcat.Call{Dir: root}
+	if v != nil {
+		c.Conf = v.conf
+		c.Rng = v.rng(op)
+	}
 	for _, n := range op.Extra {
-		cp(filepath.Join(fx, n), filepath.Join(root, n), 0o644)
+		cp(filepath.Join(fx, v.source(n)), filepath.Join(root, n), 0o644)
 	}
 	if op.Input != "" {
-		cp(filepath.Join(fx, op.Input), filepath.Join(root, op.Input), 0o644)
+		cp(filepath.Join(fx, v.source(op.Input)), filepath.Join(root, op.Input), 0o644)
 		c.In = filepath.Join(root, op.Input)
 	}
 	return c
@@ -168,13 +217,17 @@ func inoOf(p string) (uint64, uint64, bool) {
 	return uint64(st.Dev), st.Ino, true
 }
 
-func runItem(t *vk.T, fx string, it item) {
-	op, r := it.op, it.r
-	name := op.Name + "/" + r.name
-	base := "op=" + op.Name + "/rel=" + r.name
+// reference is the result of the reference run of a group.
+type reference struct {
+	root string
+	tree fsx.Tree
+}
+
+func runGroup(t *vk.T, fx string, g group) {
+	op := g.op
 	// reference run onto a fresh path
 	refRoot := filepath.Join(t.Scratch(), "ref")
-	rc := setup(fx, refRoot, op)
+	rc := setup(fx, refRoot, op, g.v)
 	if op.Kind == opcat.DirOut {
 		rc.Out = filepath.Join(refRoot, "outdir")
 		os.MkdirAll(rc.Out, 0o755)
@@ -185,76 +238,84 @@ func runItem(t *vk.T, fx string, it item) {
 		}
 	}
 	if err, pv := run(op, rc); err != nil || pv != nil {
-		t.Inconclusive(fmt.Sprintf("reference-run-failed/%s: %v %v", op.Name, err, pv))
+		if g.v != nil {
+			// the operation does not take this input (needs bookmarks, attachments, a clear document, ...): no case
+			t.Count("variant_not_accepted/"+g.v.Name, 1)
+			if pv != nil {
+				t.Count("pdfcpu_panics", 1)
+			}
+			return
+		}
+		for range g.rels {
+			t.Inconclusive(fmt.Sprintf("reference-run-failed/%s: %v %v", op.Name, err, pv))
+		}
 		return
 	}
 	refTree, _ := fsx.Snapshot(refRoot, false)
+	if g.v != nil {
+		// an operation whose output for this input does not validate even on a fresh path has an output-quality
+		// problem (properties C18/C21), not a publication problem: there is no complete output to compare with
+		var outs []string
+		for q, e := range refTree {
+			if e.Mode.IsRegular() && strings.HasSuffix(q, ".pdf") && (q == op.OutName || strings.HasPrefix(q, "outdir/")) {
+				outs = append(outs, q)
+			}
+		}
+		sort.Strings(outs)
+		for _, q := range outs {
+			if _, err := pdfcmp.Validate(filepath.Join(refRoot, q)); err != nil {
+				t.Count("variant_reference_output_invalid/"+g.v.Name, 1)
+				return
+			}
+		}
+	}
+	ref := &reference{root: refRoot, tree: refTree}
+	for _, r := range g.rels {
+		runItem(t, fx, g, r, ref)
+	}
+}
+
+func runItem(t *vk.T, fx string, g group, r relation, ref *reference) {
+	op := g.op
+	name := op.Name + "/" + r.name
+	base := "op=" + op.Name + "/rel=" + r.name
+	if g.v != nil {
+		name += "/in=" + g.v.Name
+		base = "op=" + op.Name + "/in=" + g.v.Name + "/rel=" + r.name
+	}
+	refRoot, refTree := ref.root, ref.tree
 
 	root := filepath.Join(t.Scratch(), "sb")
-	c := setup(fx, root, op)
-	dest := "" // path (as named) that must hold the result
-	var restoreCwd string
-	switch r.name {
-	case "new":
-		if op.Kind == opcat.DirOut {
-			c.Out = filepath.Join(root, "outdir")
-			os.MkdirAll(c.Out, 0o755)
-		} else {
-			c.Out = filepath.Join(root, op.OutName)
-			dest = c.Out
-		}
-	case "existing-0600", "existing-0640", "existing-0664", "existing-0666", "existing-0755":
-		c.Out = filepath.Join(root, op.OutName)
-		if strings.HasSuffix(op.OutName, ".pdf") {
-			cp(filepath.Join(fx, opcat.FxOne), c.Out, r.mode)
-		} else {
-			os.WriteFile(c.Out, []byte("OLD\n"), 0o600)
-			os.Chmod(c.Out, r.mode)
-		}
-		dest = c.Out
-	case "inplace-empty-out":
-		c.Out, dest = "", c.In
-	case "inplace-mode-0600":
-		os.Chmod(c.In, 0o600)
-		c.Out, dest = "", c.In
-	case "same-string":
-		c.Out, dest = c.In, c.In
-	case "dot-slash":
-		restoreCwd, _ = os.Getwd()
-		os.Chdir(root)
-		c.In = op.Input
-		c.Out = "./" + op.Input
-		dest = filepath.Join(root, op.Input)
-	case "abs-vs-rel":
-		restoreCwd, _ = os.Getwd()
-		os.Chdir(root)
-		c.Out = op.Input
-		dest = c.In
-	case "symlink-to-input":
-		c.Out = filepath.Join(root, "link.pdf")
-		os.Symlink(op.Input, c.Out)
-		dest = c.Out
-	case "hardlink-to-input":
-		c.Out = filepath.Join(root, "hard.pdf")
-		os.Link(c.In, c.Out)
-		dest = c.Out
-	case "symlinked-dir":
-		os.Symlink(".", filepath.Join(root, "d"))
-		c.Out = filepath.Join(root, "d", op.Input)
-		dest = c.Out
+	c := setup(fx, root, op, g.v)
+	p := build(fx, root, op, r, c, refTree)
+	if p.skip != "" {
+		t.Count("relation_not_buildable/"+r.name+"/"+p.skip, 1)
+		return
 	}
-	if restoreCwd != "" {
-		defer os.Chdir(restoreCwd)
+	dest := p.dest // path (as named) that must hold the result
+	back := ""
+	if p.cwd != "" {
+		back, _ = os.Getwd()
+		os.Chdir(p.cwd)
+		defer os.Chdir(back)
+	}
+	inPath := ""
+	if p.inReal != "" {
+		inPath = filepath.Join(root, filepath.FromSlash(p.inReal))
 	}
 	before, _ := fsx.Snapshot(root, false)
 	var inDev, inIno uint64
 	var inSize int64
 	var inBytes []byte
 	haveIno, appended := false, false
-	if op.Input != "" {
-		inDev, inIno, haveIno = inoOf(filepath.Join(root, op.Input))
-		inBytes, _ = os.ReadFile(filepath.Join(root, op.Input))
+	if inPath != "" {
+		inDev, inIno, haveIno = inoOf(inPath)
+		inBytes, _ = os.ReadFile(inPath)
 		inSize = int64(len(inBytes))
+	}
+	var oldFi os.FileInfo
+	if p.statMode && dest != "" {
+		oldFi, _ = os.Stat(dest)
 	}
 	m := &osmon.Mon{Scope: root, Record: true}
 	var badOpen []string
@@ -279,9 +340,17 @@ func runItem(t *vk.T, fx string, it item) {
 	}
 	var rerr error
 	var pv any
+	if p.umask >= 0 {
+		syscall.Umask(p.umask)
+	}
 	m.Run(func() { rerr, pv = run(op, c) })
-	if restoreCwd != "" {
-		os.Chdir(restoreCwd)
+	syscall.Umask(0o022)
+	if back != "" {
+		os.Chdir(back)
+	}
+	repl := map[string]any{"op": op.Name, "relation": r.name}
+	if g.v != nil {
+		repl["input"] = g.v.Name
 	}
 	if pv != nil {
 		t.Inconclusive(fmt.Sprintf("run-panicked/%s: %v", name, pv))
@@ -291,30 +360,65 @@ func runItem(t *vk.T, fx string, it item) {
 		// a relation may legitimately be refused (e.g. image-input booklet onto its own input); a refusal must change nothing
 		after, _ := fsx.Snapshot(root, false)
 		if ch := fsx.Diff(before, after); len(ch) > 0 {
-			t.Violate(base+"/class=refused-but-changed", fmt.Sprintf("%s returned %q and changed the tree: %v", name, rerr, ch), map[string]any{"op": op.Name, "relation": r.name})
+			t.Violate(base+"/class=refused-but-changed", fmt.Sprintf("%s returned %q and changed the tree: %v", name, rerr, ch), repl)
 		}
 		t.Count("refused_runs", 1)
+		if r.thorough {
+			t.Count("relation_refused/"+r.name, 1)
+		}
 		t.Eval("")
 		return
 	}
 	t.Count("successful_runs_checked", 1)
 	t.Count("fs_calls_traced", m.Calls())
+	if r.thorough {
+		t.Count("relation_succeeded/"+r.name, 1)
+	}
+	if g.v != nil {
+		t.Count("variant_runs_checked/"+g.v.Name, 1)
+	}
 	t.Eval(name)
 	after, _ := fsx.Snapshot(root, false)
 	viol := func(class, what string) {
-		t.Violate(base+"/class="+class, name+": "+what, map[string]any{"op": op.Name, "relation": r.name, "what": what})
+		rc := map[string]any{"what": what}
+		for k, v := range repl {
+			rc[k] = v
+		}
+		t.Violate(base+"/class="+class, name+": "+what, rc)
 	}
 	if len(badOpen) > 0 {
 		viol("input-overwritten", "the input file was truncated or overwritten in place while being the operation's input: "+strings.Join(badOpen, "; "))
 	}
 	// 1. destination complete
 	if op.Kind == opcat.DirOut {
-		for p, e := range refTree {
-			if !strings.HasPrefix(p, "outdir/") || !e.Mode.IsRegular() {
+		var outs []string
+		for q, e := range refTree {
+			if strings.HasPrefix(q, "outdir/") && e.Mode.IsRegular() {
+				outs = append(outs, q)
+			}
+		}
+		sort.Strings(outs)
+		for _, q := range outs {
+			got := filepath.Join(root, filepath.FromSlash(p.outReal), filepath.FromSlash(q[len("outdir/"):]))
+			if ok, why := pdfcmp.SameOutput(filepath.Join(refRoot, q), got, 256); !ok {
+				viol("output-incomplete", q+": "+why)
+			}
+		}
+		// pre-populated output directory: a replaced file keeps the permission bits it had
+		var pre []string
+		for q := range p.prepop {
+			pre = append(pre, q)
+		}
+		sort.Strings(pre)
+		for _, q := range pre {
+			fi, err := os.Stat(filepath.Join(root, filepath.FromSlash(q)))
+			if err != nil {
+				viol("output-incomplete", q+": pre-existing output is gone: "+err.Error())
 				continue
 			}
-			if ok, why := pdfcmp.SameOutput(filepath.Join(refRoot, p), filepath.Join(root, p), 256); !ok {
-				viol("output-incomplete", p+": "+why)
+			t.Count("prepopulated_outputs_checked", 1)
+			if fi.Mode().Perm() != p.prepop[q] {
+				viol("mode-changed", fmt.Sprintf("%s: destination mode %v, before %v", filepath.Base(q), fi.Mode().Perm(), p.prepop[q]))
 			}
 		}
 	} else if appended {
@@ -335,7 +439,23 @@ func runItem(t *vk.T, fx string, it item) {
 		}
 	}
 	// 2. permission bits of an existing destination
-	if dest != "" {
+	if dest != "" && p.statMode {
+		if oldFi != nil {
+			if fi, err := os.Stat(dest); err == nil {
+				if fi.Mode().Perm() != oldFi.Mode().Perm() {
+					viol("mode-changed", fmt.Sprintf("destination mode %v, before %v", fi.Mode().Perm(), oldFi.Mode().Perm()))
+				}
+				const special = os.ModeSetuid | os.ModeSetgid | os.ModeSticky
+				if ob := oldFi.Mode() & special; ob != 0 {
+					if fi.Mode()&special == ob {
+						t.Count("special_mode_bits_kept", 1)
+					} else {
+						t.Count("special_mode_bits_dropped", 1)
+					}
+				}
+			}
+		}
+	} else if dest != "" {
 		rel, _ := filepath.Rel(root, dest)
 		rel = filepath.ToSlash(rel)
 		if r.name == "symlinked-dir" {
@@ -353,29 +473,56 @@ func runItem(t *vk.T, fx string, it item) {
 		destRel, _ = filepath.Rel(root, dest)
 		destRel = filepath.ToSlash(destRel)
 	}
+	inOutDir := func(q string) bool {
+		if op.Kind != opcat.DirOut {
+			return false
+		}
+		if p.outReal == "." {
+			return !strings.Contains(q, "/")
+		}
+		return strings.HasPrefix(q, p.outReal+"/")
+	}
 	for _, ch := range fsx.Diff(before, after) {
-		p := ch.Path
+		q := ch.Path
+		_, pre := p.prepop[q]
 		switch {
-		case p == destRel || (r.name == "symlinked-dir" && p == op.Input):
-		case r.alias && p == op.Input:
+		case q == destRel || p.allowed[q]:
+		case r.alias && q == p.inReal:
 			// other name of the input: old or new bytes are both accepted (see assumptions)
-		case op.Kind == opcat.DirOut && strings.HasPrefix(p, "outdir/") && ch.Kind == "added" && !fsx.IsStaging(filepath.Base(p)):
-		case ch.Kind == "added" && fsx.IsStaging(filepath.Base(p)):
+		case inOutDir(q) && ch.Kind == "added" && !fsx.IsStaging(filepath.Base(q)):
+		case pre && (ch.Kind == "content" || ch.Kind == "mode"):
+			// a pre-existing output was replaced (its mode is judged above)
+		case ch.Kind == "added" && fsx.IsStaging(filepath.Base(q)):
 			viol("staging-left", ch.String())
 		case ch.Kind == "added":
-			if _, inRef := refTree[p]; inRef {
+			if _, inRef := refTree[q]; inRef {
 				continue
 			}
 			viol("unexpected-file", ch.String())
 		default:
-			if p == op.Input || contains(op.Extra, p) {
+			if q == p.inReal || contains(op.Extra, q) {
 				viol("input-changed", ch.String())
 			} else {
 				viol("other-path-changed", ch.String())
 			}
 		}
 	}
-	t.Sample(map[string]any{"op": op.Name, "relation": r.name, "fs_calls": m.Calls(), "dest": destRel})
+	s := map[string]any{"op": op.Name, "relation": r.name, "fs_calls": m.Calls(), "dest": destRel}
+	if g.v != nil {
+		s["input"] = g.v.Name
+	}
+	t.Sample(s)
+}
+
+// pdfExtras lists the distinct PDF fixtures among an operation's extra inputs.
+func pdfExtras(op opcat.Op) []string {
+	var out []string
+	for _, e := range op.Extra {
+		if strings.HasSuffix(e, ".pdf") && !contains(out, e) {
+			out = append(out, e)
+		}
+	}
+	return out
 }
 
 func contains(l []string, s string) bool {
